@@ -288,13 +288,9 @@ func copyData(d map[string]any) map[string]any {
 		case time.Time:
 			d2[k] = v2
 		case []uint8:
-			nv := make([]byte, len(v2))
-			_ = copy(nv, v2)
-			d2[k] = v2
+			d2[k] = copyVal(v2)
 		case []string:
-			nv := make([]string, len(v2))
-			_ = copy(nv, v2)
-			d2[k] = v2
+			d2[k] = copyVal(v2)
 		case *string:
 			d2[k] = v2
 		case *int:
@@ -322,15 +318,48 @@ func copyData(d map[string]any) map[string]any {
 		case *time.Time:
 			d2[k] = v2
 		case *[]uint8:
-			if v2 == nil {
-				d2[k] = (*[]uint8)(nil)
-			} else {
-				nv := make([]byte, len(*v2))
-				_ = copy(nv, *v2)
-				d2[k] = v2
-			}
+			d2[k] = copyVal(v2)
 		}
 	}
 
 	return d2
+}
+
+// copyVal returns v, or a copy of v that shares no memory with it if v is a
+// slice of bytes, a pointer to a slice of bytes or a slice of strings.
+func copyVal(v any) any {
+	switch v2 := v.(type) {
+	case []uint8:
+		if v2 == nil {
+			return v2
+		}
+
+		nv := make([]byte, len(v2))
+		_ = copy(nv, v2)
+
+		return nv
+	case []string:
+		if v2 == nil {
+			return v2
+		}
+
+		nv := make([]string, len(v2))
+		_ = copy(nv, v2)
+
+		return nv
+	case *[]uint8:
+		if v2 == nil {
+			return v2
+		}
+
+		var nv []byte
+		if *v2 != nil {
+			nv = make([]byte, len(*v2))
+			_ = copy(nv, *v2)
+		}
+
+		return &nv
+	}
+
+	return v
 }
